@@ -591,3 +591,120 @@ def g_scat_j2_backward(rot=False, canary=False):
             obs.append(solve.prove(pid + '/C/%s-cotangent/shape' % nm, 'POST', c.pc, z3.And(*[I(a) == I(q) for a, q in zip(t.shape, RE1.shape)]), MV))
             obs.append(prove_terms(pid + '/C/%s-cotangent == (stage A result)[o*C + c] * %s / r' % (nm, nm), 'POST', list(c.pc) + rl5, t.at(l5), dA * (src(l5) / R1)))
     return obs, info
+
+
+def g_scat_j2_colour(rot=False, canary=False):
+    """ScatLayerj2_f / _rot_f with combine_colour=True (3 input channels): forward values and the backward chain.
+       Z (N, 51, H/4, W/4) = [ pool(LL2) (3) | pool(LL3) (6) | magc(RE2, IM2) (6) | mag(RE3, IM3) (36 = 6*o2 + o1) ]
+       magc(re, im)[n,o] = sqrt(sum_c re[n,o,c]^2 + im[n,o,c]^2 + b^2) - b ; stage 3 input = magc(RE1, IM1) (6 channels)"""
+    cls = 'ScatLayerj2_rot_f' if rot else 'ScatLayerj2_f'
+    oid = '%s[combine_colour]' % cls
+    base = [Bn >= 1, H >= 1, W >= 1, bias > 0]
+
+    def run():
+        rec = Rec()
+        it = Interp(contracts=stage_contracts(rec))
+        x = term_tensor('x', (Bn, 3, 8 * H, 8 * W), requires_grad=True)
+        mm = [z3.Int('m%d' % q) for q in range(9)]
+        f1 = [CT.dt_filter('h0o', mm[0]), CT.dt_filter('h1o', mm[1])] + ([CT.dt_filter('h2o', mm[2])] if rot else [])
+        f2 = [CT.dt_filter('h0a', mm[3]), CT.dt_filter('h0b', mm[3]), CT.dt_filter('h1a', mm[4]), CT.dt_filter('h1b', mm[4])] + \
+            ([CT.dt_filter('h2a', mm[5]), CT.dt_filter('h2b', mm[5])] if rot else [])
+        fc = _fctx((True,) + (False,) * 12)
+        Z = it.call(SL, cls + '.forward', [fc, x] + f1 + f2 + [1, TV(bias), True], {})
+        dZ = term_tensor('dZ', Z.shape)
+        grads = it.call(SL, cls + '.backward', [fc, dZ], {})
+        return rec, x, f1, f2, Z, dZ, grads
+    obs = []
+    info = {'paths': 0}
+    for k, (c, res) in enumerate(explore(run, base)):
+        CUR.ctx = c
+        if c.solver.check() == z3.unsat:
+            continue
+        pid = '%s/path%d' % (oid, k)
+        info['paths'] += 1
+        if res[0] == 'raise':
+            obs.append(Ob(pid + '/unexpected-raise', 'POST', 'refuted', 'path', 0, {'what': '%s: %s' % (res[1].kind, res[1].msg), 'model': {}}))
+            continue
+        rec, x, f1, f2, Z, dZ, grads = res[1]
+        fw = [q for q in rec.calls if q[0].startswith('fwd')]
+        iv = [q for q in rec.calls if q[0].startswith('inv')]
+        ok = [q[0] for q in fw] == ['fwd_j1', 'fwd_j2plus', 'fwd_j1'] and [q[0] for q in iv] == ['inv_j1', 'inv_j2plus', 'inv_j1']
+        obs.append(Ob(pid + '/stages[3 forward, 3 inverse in reverse order]', 'POST', 'proved' if ok else 'refuted', 'structural', 0))
+        if not ok:
+            continue
+        (LL1, RE1, IM1), (LL2, RE2, IM2), (LL3, RE3, IM3) = fw[0][6], fw[1][6], fw[2][6]
+        b = TV(bias)
+        r1, i1, r2, i2, r3, i3 = [t.snap() for t in (RE1, IM1, RE2, IM2, RE3, IM3)]
+
+        def Rc(rs_, is_, n_, o, i, j):
+            u = b * b
+            for cc in range(3):
+                u = u + rs_([n_, o, cc, i, j]) * rs_([n_, o, cc, i, j]) + is_([n_, o, cc, i, j]) * is_([n_, o, cc, i, j])
+            return tv_sqrt(u)
+        ok = fw[0][1] is x and fw[1][1] is LL1 and all(a is q for a, q in zip(fw[0][2], f1)) and all(a is q for a, q in zip(fw[2][2], f1))
+        want_f2 = [f2[0], f2[2], f2[1], f2[3]] + ([f2[4], f2[5]] if rot else [])
+        ok = ok and all(a is q for a, q in zip(fw[1][2], want_f2))
+        obs.append(Ob(pid + '/PRE[inputs and filters of the forward stages]', 'PRE', 'proved' if ok else 'refuted', 'structural', 0))
+        a3 = fw[2][1]
+        i4 = [z3.Int('P%d' % q) for q in range(4)]
+        shp3 = (Bn, 6, 4 * H, 4 * W)
+        obs.append(solve.prove(pid + '/second-order-input/shape', 'PRE', c.pc, z3.And(a3.ndim == 4, *[I(a) == I(q) for a, q in zip(a3.shape, shp3)]), MV))
+        rg = [z3.And(i >= 0, i < I(n)) for i, n in zip(i4, shp3)]
+        obs.append(prove_terms(pid + '/second-order-input == colour-combined first-order magnitudes', 'PRE', list(c.pc) + rg, a3.at(i4),
+                               Rc(r1, i1, i4[0], i4[1], i4[2], i4[3]) - b))
+        zshape = (Bn, 51, 2 * H, 2 * W)
+        obs.append(solve.prove(pid + '/POST[Z]/shape', 'POST', c.pc, z3.And(Z.ndim == 4, *[I(a) == I(q) for a, q in zip(Z.shape, zshape)]), MV))
+        P = [z3.Int('Z%d' % q) for q in range(4)]
+        rz = [z3.And(i >= 0, i < I(n)) for i, n in zip(P, zshape)]
+        n_, kk, i, j = P
+        p2, p3 = _pool(LL2), _pool(LL3)
+        sh = 1 if canary else 0
+        o1, o2 = z3.Int('o1'), z3.Int('o2')
+        for nm, cond, val in (('lowpass (3 colour channels)', [kk < 3], lambda: p2(n_, kk, i, j)),
+                              ('first-order scale 1 (pooled)', [kk >= 3, kk < 9], lambda: p3(n_, kk - 3, i, j)),
+                              ('first-order scale 2', [kk >= 9, kk < 15], lambda: Rc(r2, i2, n_, kk - 9 + sh, i, j) - b)):
+            obs.append(prove_terms(pid + '/POST[Z: %s]' % nm, 'POST', list(c.pc) + rz + cond, Z.at(P), val()))
+        cond = [kk >= 15, o2 >= 0, o2 < 6, o1 >= 0, o1 < 6, kk - 15 == 6 * o2 + o1]
+        obs.append(prove_terms(pid + '/POST[Z: second order, band 15 + 6*o2 + o1]', 'POST', list(c.pc) + rz + cond, Z.at(P),
+                               mag(r3([n_, o2, o1, i, j]), i3([n_, o2, o1, i, j]), b)))
+        # ---- backward
+        A, Bc, Cc_ = iv
+        dz = dZ.snap()
+        okf = all(a is q for a, q in zip(A[2], f1)) and all(a is q for a, q in zip(Cc_[2], f1))
+        want2 = [f2[1], f2[3], f2[0], f2[2]] + ([f2[5], f2[4]] if rot else [])
+        okf = okf and all(a is q for a, q in zip(Bc[2], want2)) and all((q[3], q[4], q[5], q[6]) == (1, 3, 4, 'symmetric') for q in iv)
+        obs.append(Ob(pid + '/backward/inverse stages use the analysis filters (a/b swapped at level 2, band-pass pair included)', 'POST',
+                      'proved' if okf else 'refuted', 'structural', 0))
+        ok = isinstance(grads, tuple) and grads[0] is Cc_[7] and all(g is None for g in grads[1:])
+        obs.append(Ob(pid + '/backward/dX is the result of the last inverse stage', 'POST', 'proved' if ok else 'refuted', 'structural', 0))
+        lowA, reA, imA = A[1]
+        q4 = [z3.Int('Q%d' % q) for q in range(4)]
+        rq4 = [z3.And(t >= 0, t < I(n)) for t, n in zip(q4, LL3.shape)]
+        obs.append(prove_terms(pid + '/backward/A/lowpass-cotangent', 'POST', list(c.pc) + rq4, lowA.at(q4),
+                               dz([q4[0], 3 + q4[1], simp(I(q4[2]) / 2), simp(I(q4[3]) / 2)]) * Fr(1, 4)))
+        q5 = [z3.Int('R%d' % q) for q in range(5)]
+        rq5 = [z3.And(t >= 0, t < I(n)) for t, n in zip(q5, RE3.shape)]
+        R3 = tv_sqrt(r3(q5) * r3(q5) + i3(q5) * i3(q5) + b * b)
+        d36 = dz([q5[0], 15 + 6 * q5[1] + q5[2], q5[3], q5[4]])
+        for nm, t, src in (('real', reA, r3), ('imag', imA, i3)):
+            obs.append(prove_terms(pid + '/backward/A/%s-cotangent' % nm, 'POST', list(c.pc) + rq5, t.at(q5), d36 * (src(q5) / R3)))
+        lowB, reB, imB = Bc[1]
+        s4 = [z3.Int('S%d' % q) for q in range(4)]
+        rs4 = [z3.And(t >= 0, t < I(n)) for t, n in zip(s4, LL2.shape)]
+        obs.append(prove_terms(pid + '/backward/B/lowpass-cotangent', 'POST', list(c.pc) + rs4, lowB.at(s4),
+                               dz([s4[0], s4[1], simp(I(s4[2]) / 2), simp(I(s4[3]) / 2)]) * Fr(1, 4)))
+        t5 = [z3.Int('T%d' % q) for q in range(5)]
+        rt5 = [z3.And(t >= 0, t < I(n)) for t, n in zip(t5, RE2.shape)]
+        R2 = Rc(r2, i2, t5[0], t5[1], t5[3], t5[4])
+        d2 = dz([t5[0], 9 + t5[1], t5[3], t5[4]])
+        for nm, t, src in (('real', reB, r2), ('imag', imB, i2)):
+            obs.append(prove_terms(pid + '/backward/B/%s-cotangent' % nm, 'POST', list(c.pc) + rt5, t.at(t5), d2 * (src(t5) / R2)))
+        lowC, reC, imC = Cc_[1]
+        obs.append(Ob(pid + '/backward/C/lowpass-cotangent is the result of stage B', 'POST', 'proved' if lowC is Bc[7] else 'refuted', 'structural', 0))
+        u5 = [z3.Int('U%d' % q) for q in range(5)]
+        ru5 = [z3.And(t >= 0, t < I(n)) for t, n in zip(u5, RE1.shape)]
+        R1 = Rc(r1, i1, u5[0], u5[1], u5[3], u5[4])
+        dA = A[7].snap()([u5[0], u5[1], u5[3], u5[4]])
+        for nm, t, src in (('real', reC, r1), ('imag', imC, i1)):
+            obs.append(prove_terms(pid + '/backward/C/%s-cotangent' % nm, 'POST', list(c.pc) + ru5, t.at(u5), dA * (src(u5) / R1)))
+    return obs, info
